@@ -141,6 +141,9 @@ Fixpoint jobs_of (l : list spec) : list jblock :=
   match l with [] => [] | SJob b :: r => b :: jobs_of r | _ :: r => jobs_of r end.
 Fixpoint found_of (l : list spec) : list (string * string) :=
   match l with [] => [] | SExt k p :: r => (k, p) :: found_of r | _ :: r => found_of r end.
+(* the names apply_ast_transformations puts into the method table: declared C++ functions and collections *)
+Fixpoint declared_names (l : list spec) : list string :=
+  match l with [] => [] | SColl _ n :: r => n :: declared_names r | SCpp n :: r => n :: declared_names r | _ :: r => declared_names r end.
 (* mirrors {atlas,cms_aod,cms_miniaod}_executor.build_collection_callback: ValueError for a
    collection declared for another backend *)
 Fixpoint callbacks_ok (b : backend) (l : list spec) : bool :=
@@ -156,7 +159,9 @@ Record exec := {
   e_jobs : list jblock;            (* _job_option_blocks *)
   e_inject : list spec;            (* _inject_blocks *)
   e_ext : option extd;             (* _extended_md; None = still bound to the shared default-argument dict *)
-  e_found : list (string * string) (* _found_extended_md, flattened in append order *)
+  e_found : list (string * string); (* _found_extended_md, flattened in append order *)
+  e_methods : list string          (* names in _method_names beyond the backend's built-ins (the table itself is
+                                      built in __init__; a query must only ever extend a copy of it) *)
 }.
 
 Record state := {
@@ -171,18 +176,20 @@ Definition sigma0 : state :=
   {| g_mt := []; g_ns := []; g_counter := 0; g_shared_ext := []; g_execs := [] |}.
 
 (* what the translation of one query can see *)
-Record view := { vw_mt : mtab; vw_ns : nstab; vw_inject : list spec; vw_jobs : list jblock }.
+(* vw_methods: declared names that persist in the executor's method table (read by cpp_ast_finder) *)
+Record view := { vw_mt : mtab; vw_ns : nstab; vw_inject : list spec; vw_jobs : list jblock; vw_methods : list string }.
 
 Record variant := {
   v_reset_on_failure : bool;   (* @_reset_on_failure on apply_ast_transformations and write_cpp_files *)
   v_reset_ns : bool;           (* reset() also clears g_toplevel_ns *)
   v_own_ext : bool;            (* extended_md: Optional[Dict] = None -> every executor owns its dict *)
-  v_clear_found : bool         (* apply_ast_transformations starts with an empty _found_extended_md *)
+  v_clear_found : bool;        (* apply_ast_transformations starts with an empty _found_extended_md *)
+  v_copy_methods : bool        (* method_names = dict(self._method_names): declared collections/functions extend a copy *)
 }.
 Definition fixed : variant :=
-  {| v_reset_on_failure := true; v_reset_ns := true; v_own_ext := true; v_clear_found := true |}.
+  {| v_reset_on_failure := true; v_reset_ns := true; v_own_ext := true; v_clear_found := true; v_copy_methods := true |}.
 Definition unfixed : variant :=
-  {| v_reset_on_failure := false; v_reset_ns := false; v_own_ext := false; v_clear_found := false |}.
+  {| v_reset_on_failure := false; v_reset_ns := false; v_own_ext := false; v_clear_found := false; v_copy_methods := true |}.
 
 Inductive stage := StExtract | StMetadata | StPasses | StCallbacks | StFinder | StWrite.
 Inductive who := New | Reuse (k : nat).
@@ -206,7 +213,7 @@ Section Wrapper.
   (* change_extension_functions_to_calls, aggregate_node_transformer, simplify_chained_calls, find_known_functions *)
   Variable passes : body -> result body.
   (* cpp_ast_finder with the executor's method table extended by the declared functions/collections *)
-  Variable finder : backend -> list spec -> body -> result body.
+  Variable finder : backend -> list string -> list spec -> body -> result body.
   (* write_cpp_files up to (excluding) its final reset: visitor, add_to_replacement_dict, templates.
      Takes the name counter and returns the new one. *)
   Variable T : backend -> nat -> view -> body -> result pkg * nat.
@@ -221,7 +228,7 @@ Section Wrapper.
     {| f_mt := f_mt f; f_ns := f_ns f; f_counter := f_counter f; f_shared := f_shared f; f_exe := e |}.
   Definition set_found (f : focus) (l : list (string * string)) : focus :=
     let e := f_exe f in
-    set_exe f {| e_backend := e_backend e; e_jobs := e_jobs e; e_inject := e_inject e; e_ext := e_ext e; e_found := l |}.
+    set_exe f {| e_backend := e_backend e; e_jobs := e_jobs e; e_inject := e_inject e; e_ext := e_ext e; e_found := l; e_methods := e_methods e |}.
 
   (* mirrors executor.reset + the backend's override (super().reset(); define_default_*_types()) *)
   Definition reset_f (f : focus) : focus :=
@@ -230,7 +237,7 @@ Section Wrapper.
        f_ns := if v_reset_ns v then [] else f_ns f;
        f_counter := f_counter f;
        f_shared := f_shared f;
-       f_exe := {| e_backend := e_backend e; e_jobs := []; e_inject := []; e_ext := Some []; e_found := e_found e |} |}.
+       f_exe := {| e_backend := e_backend e; e_jobs := []; e_inject := []; e_ext := Some []; e_found := e_found e; e_methods := e_methods e |} |}.
 
   (* mirrors executor.add_extended_md: self._extended_md.update(...) mutates whatever dict it is bound to *)
   Definition add_extended_md (k p : string) (f : focus) : focus :=
@@ -239,7 +246,7 @@ Section Wrapper.
     | None => {| f_mt := f_mt f; f_ns := f_ns f; f_counter := f_counter f;
                  f_shared := ext_update k p (f_shared f); f_exe := e |}
     | Some d => set_exe f {| e_backend := e_backend e; e_jobs := e_jobs e; e_inject := e_inject e;
-                             e_ext := Some (ext_update k p d); e_found := e_found e |}
+                             e_ext := Some (ext_update k p d); e_found := e_found e; e_methods := e_methods e |}
     end.
   Definition current_ext (f : focus) : extd :=
     match e_ext (f_exe f) with None => f_shared f | Some d => d end.
@@ -266,21 +273,28 @@ Section Wrapper.
                 if negb (callbacks_ok (e_backend (f_exe f2)) specs)
                 then let '(f', o) := fail f2 StCallbacks ErrValue in (f', inl o)
                 else
-                  match finder (e_backend (f_exe f2)) specs bd1 with
-                  | Error e => let '(f', o) := fail f2 StFinder e in (f', inl o)
+                  (* method_names.update({md.name: ...}): on the executor's own table unless it was copied *)
+                  let f3 := if v_copy_methods v then f2 else
+                              let e := f_exe f2 in
+                              set_exe f2 {| e_backend := e_backend e; e_jobs := e_jobs e; e_inject := e_inject e;
+                                            e_ext := e_ext e; e_found := e_found e;
+                                            e_methods := e_methods e ++ declared_names specs |} in
+                  match finder (e_backend (f_exe f3)) (e_methods (f_exe f3)) specs bd1 with
+                  | Error e => let '(f', o) := fail f3 StFinder e in (f', inl o)
                   | OK bd2 =>
-                      let e := f_exe f2 in
-                      (set_exe f2 {| e_backend := e_backend e;
+                      let e := f_exe f3 in
+                      (set_exe f3 {| e_backend := e_backend e;
                                      e_jobs := e_jobs e ++ jobs_of specs;
                                      e_inject := injects_of specs;
-                                     e_ext := e_ext e; e_found := e_found e |}, inr bd2)
+                                     e_ext := e_ext e; e_found := e_found e; e_methods := e_methods e |}, inr bd2)
                   end
             end
         end
     end.
 
   Definition view_of (f : focus) : view :=
-    {| vw_mt := f_mt f; vw_ns := f_ns f; vw_inject := e_inject (f_exe f); vw_jobs := e_jobs (f_exe f) |}.
+    {| vw_mt := f_mt f; vw_ns := f_ns f; vw_inject := e_inject (f_exe f); vw_jobs := e_jobs (f_exe f);
+       vw_methods := e_methods (f_exe f) |}.
 
   (* mirrors executor.write_cpp_files; `found` is what local_dataset reads with exe.extended_md() afterwards *)
   Definition write_cpp (f : focus) (bd : body) : focus * outcome :=
@@ -304,7 +318,8 @@ Section Wrapper.
     {| g_mt := mt_merge (g_mt s) (raw_defaults b); g_ns := g_ns s; g_counter := g_counter s;
        g_shared_ext := g_shared_ext s;
        g_execs := g_execs s ++ [ {| e_backend := b; e_jobs := []; e_inject := [];
-                                    e_ext := if v_own_ext v then Some [] else None; e_found := [] |} ] |}.
+                                    e_ext := if v_own_ext v then Some [] else None; e_found := [];
+                                    e_methods := [] |} ] |}.
 
   Definition focus_of (s : state) (e : exec) : focus :=
     {| f_mt := g_mt s; f_ns := g_ns s; f_counter := g_counter s; f_shared := g_shared_ext s; f_exe := e |}.
@@ -320,7 +335,7 @@ Section Wrapper.
     end.
 
   Definition blank (b : backend) : exec :=
-    {| e_backend := b; e_jobs := []; e_inject := []; e_ext := Some []; e_found := [] |}.
+    {| e_backend := b; e_jobs := []; e_inject := []; e_ext := Some []; e_found := []; e_methods := [] |}.
 
   Definition step (s : state) (o : op) : state * option outcome :=
     match o with
@@ -361,7 +376,7 @@ Definition c_extract (q : cquery) : result (list decl * cquery) :=
   match cq_extract_err q with Some e => Error e | None => OK (cq_md q, q) end.
 Definition c_passes (q : cquery) : result cquery :=
   match cq_passes_err q with Some e => Error e | None => OK q end.
-Definition c_finder (b : backend) (l : list spec) (q : cquery) : result cquery :=
+Definition c_finder (b : backend) (tbl : list string) (l : list spec) (q : cquery) : result cquery :=
   match cq_finder_err q with Some e => Error e | None => OK q end.
 (* the ATLAS executor runs generate_script_block over the accumulated job-script blocks *)
 Definition c_T (b : backend) (n : nat) (vw : view) (q : cquery) : result cpkg * nat :=
@@ -455,11 +470,11 @@ Definition d_mentry (s : sexp) : option (mkey * string) :=
 
 Definition d_variant (s : sexp) : option variant :=
   match s with
-  | SList [a; b; c; d] =>
-      match d_bool a, d_bool b, d_bool c, d_bool d with
-      | Some a', Some b', Some c', Some d' =>
-          Some {| v_reset_on_failure := a'; v_reset_ns := b'; v_own_ext := c'; v_clear_found := d' |}
-      | _, _, _, _ => None
+  | SList [a; b; c; d; e] =>
+      match d_bool a, d_bool b, d_bool c, d_bool d, d_bool e with
+      | Some a', Some b', Some c', Some d', Some e' =>
+          Some {| v_reset_on_failure := a'; v_reset_ns := b'; v_own_ext := c'; v_clear_found := d'; v_copy_methods := e' |}
+      | _, _, _, _, _ => None
       end
   | _ => None
   end.
@@ -474,7 +489,7 @@ Definition spec_name (s : spec) : string :=
   match s with SInject n _ => n | SJob b => jb_name b | SColl _ n => n | SCpp n => n | SExt k _ => k end.
 Definition s_view (vw : view) : sexp :=
   SList [s_mtab (vw_mt vw); s_nstab (vw_ns vw); s_strs (map spec_name (vw_inject vw));
-         s_strs (map jb_name (vw_jobs vw))].
+         s_strs (map jb_name (vw_jobs vw)); s_strs (vw_methods vw)].
 Definition s_stage (s : stage) : sexp :=
   SAtom (match s with StExtract => "extract" | StMetadata => "metadata" | StPasses => "passes"
                     | StCallbacks => "callbacks" | StFinder => "finder" | StWrite => "write" end).
@@ -487,7 +502,7 @@ Definition s_outcome (o : option (outcome cpkg)) : sexp :=
 Definition s_exec (e : exec) : sexp :=
   SList [s_backend (e_backend e); s_strs (map jb_name (e_jobs e)); s_strs (map spec_name (e_inject e));
          (match e_ext e with None => s_tag "shared" [] | Some d => s_tag "own" [s_strs (map fst d)] end);
-         s_pairs (e_found e)].
+         s_pairs (e_found e); s_strs (e_methods e)].
 Definition s_state (s : state) : sexp :=
   SList [s_mtab (g_mt s); s_nstab (g_ns s); s_strs (map fst (g_shared_ext s)); SList (map s_exec (g_execs s))].
 
